@@ -130,6 +130,10 @@ class Angle(object):
         (23, 26, 49.6, -1.0)
         """
 
+        if not (isinstance(degrees, (int, float))
+                and isinstance(minutes, (int, float))
+                and isinstance(seconds, (int, float))):
+            raise TypeError("Invalid input value")
         # If any of the input values is negative, the sign is negative
         sign = -1.0 if (degrees < 0) or (minutes < 0) or (seconds < 0) else 1.0
         degrees = abs(degrees)
@@ -224,6 +228,8 @@ class Angle(object):
         :rtype: None
         """
 
+        if not isinstance(tol, (int, float)):
+            raise TypeError("Invalid input value")
         self._tol = tol
         return
 
